@@ -74,6 +74,7 @@ type world struct {
 	listed  map[string]bool
 	log     []stepLog
 	nameSeq int
+	names   []string // chain names handed out so far
 }
 
 var (
@@ -160,9 +161,29 @@ var nameForms = []string{"chain-%d", "c%d", "x.y_%d", "[n]<%d>", "A+B#%d", "bsc-
 func (w *world) freshName(t *rapid.T) string {
 	w.nameSeq++
 	n := fmt.Sprintf(rapid.SampledFrom(nameForms).Draw(t, "name_form"), 100+w.nameSeq)
+	// chain names that begin with another chain's name ("eth" / "eth-ropsten"): one name in three is derived from a name
+	// already in use, by cutting its tail off or by appending to it
+	if len(w.names) > 0 && rapid.IntRange(0, 2).Draw(t, "name_related") == 0 {
+		base := w.names[rapid.IntRange(0, len(w.names)-1).Draw(t, "name_base")]
+		var alt string
+		if rapid.Bool().Draw(t, "name_shorter") {
+			alt = base[:len(base)-rapid.IntRange(1, 3).Draw(t, "name_cut")]
+		} else {
+			alt = base + rapid.SampledFrom([]string{"0", "-b", ".x", "#"}).Draw(t, "name_tail")
+		}
+		used := false
+		for _, u := range w.names {
+			used = used || u == alt
+		}
+		if !used && nameValid(alt) {
+			n = alt
+			w.r.Label("name_related_to_a_name_in_use")
+		}
+	}
 	if !nameValid(n) {
 		kit.Failf("generated name %q is not valid", n)
 	}
+	w.names = append(w.names, n)
 	return n
 }
 
